@@ -289,8 +289,10 @@ def run_machine_shard(part, tier, seed, n, ctx, guard_path, raise_sig, best_path
 
 def _quiet_htslib():
     try:
-        import pysam
+        import pysam, logging
         pysam.set_verbosity(0)
+        logging.getLogger("whatshap").setLevel(logging.CRITICAL)
+        logging.getLogger().setLevel(logging.CRITICAL)
     except Exception:
         pass
 
@@ -536,11 +538,18 @@ def main(argv=None):
                 if m is None:
                     continue
                 merged_parts.append(m)
-                for sig, v in sorted(m["violations"].items()):
-                    if sig in known_sigs:
-                        continue
-                    budget = 90 if a.tier == "quick" else 300
+                todo = [(sig, v) for sig, v in sorted(m["violations"].items()) if sig not in known_sigs]
+                budget = 90 if a.tier == "quick" else 300
+
+                def one(item, i=i, part=part, nshrunk=[0]):
+                    sig, v = item
                     case, detail = shrink(mod, i, a.tier, seed, v, sig, workdir, budget)
+                    return sig, v, case, detail
+
+                from concurrent.futures import ThreadPoolExecutor
+                with ThreadPoolExecutor(max_workers=8) as ex:
+                    results = list(ex.map(one, todo[:16])) + [(sig, v, v["case"], v["detail"]) for sig, v in todo[16:]]
+                for sig, v, case, detail in results:
                     odir = os.path.join(VERIF, "out", "replays", pid)
                     os.makedirs(odir, exist_ok=True)
                     rp = os.path.join(odir, "%s-%s.json" % (slug(sig), jhash(case)))
